@@ -176,6 +176,20 @@ def kida_line(r: AReac, formula=3):
             f"{int(r.tmin):>6d} {int(r.tmax):>6d} {formula:>2d} {r.idx:>5d} 1  1")
 
 
+def umist_line(r: AReac, code="NN"):
+    """RATE12 layout: at most 2 reactant and 4 product columns"""
+    re_ = [s.name for s in r.re] + r.pseudo_re
+    pr_ = [s.name for s in r.pr] + r.pseudo_pr
+    assert len(re_) <= 2 and len(pr_) <= 4
+    sp = re_ + [""] * (2 - len(re_)) + pr_ + [""] * (4 - len(pr_))
+    return ":".join([str(r.idx), code, *sp, "1", f"{r.alpha:.2e}", f"{r.beta:.2f}", f"{r.gamma:.1f}", f"{r.tmin:g}", f"{r.tmax:g}",
+                     "L", "C", '"10.1086/190919"', "", ""])
+
+
+def fits_umist(r: AReac):
+    return len(r.re) + len(r.pseudo_re) <= 2 and len(r.pr) + len(r.pseudo_pr) <= 4
+
+
 def leeds_line(idx, re_, pr_, a=1e-10, b=0.0, c=0.0, lt=5, ht=41000, rtype=1):
     """own encoder of the Leeds (Walsh et al.) fixed-width format: 5 + 30 + 50 + 8 + 9 + 10 + 5 + 5 + 3 columns"""
     rs = "".join(f"{x:<10}" for x in list(re_) + [""] * (3 - len(re_)))
